@@ -343,12 +343,13 @@ NAMES = ["a", "b", "c", "d"]
 cref = st.integers(0, 40)
 cseg = st.sampled_from(NAMES)
 cpath = st.one_of(cseg, cseg, cseg, st.lists(cseg, min_size=2, max_size=3).map("/".join), cseg.map(lambda s: "/" + s))
-fresh = st.sampled_from(["e", "f", "g", "h", "n1", "n2"])
+fresh = st.sampled_from(["e", "f", "g", "h", "n1", "n2", "ab", "aa", "b-1"])
 dpath = st.one_of(fresh, fresh, cseg, st.tuples(cseg, fresh).map("/".join), fresh.map(lambda s: "/" + s))
 cvalue = st.one_of(st.builds(lambda v: {"t": "int", "v": v}, st.integers(0, 9)),
                    st.builds(lambda v: {"t": "void", "v": v}, st.sampled_from(["00", "6100", "ff00fe00", "7f00"])),
                    st.builds(lambda v: {"t": "str", "v": v}, st.sampled_from(["x", "äö"])),
-                   st.just({"t": "arr", "dt": "i8", "v": [1, 2, 3]}))
+                   st.just({"t": "arr", "dt": "i8", "v": [1, 2, 3]}),
+                   st.builds(lambda dt, v: {"t": "arr", "dt": dt, "v": v}, st.sampled_from(["i1", "u1"]), st.sampled_from([127, 1])))
 ctgt = st.one_of(cref, cref, cref, cref, cref, cref, cpath)
 
 
@@ -380,7 +381,8 @@ def container_ops(self_move=False, node_forms=True):
     )
     detach = st.tuples(st.just("detach"), ctgt, st.integers(0, 30), st.booleans())
     meta = st.one_of(attach_ops(), attach_ops(), attach_ops(), detach, detach)
-    bnd = st.one_of(st.just(("commit",)), st.just(("commit",)), st.just(("reopen",)), st.tuples(st.just("purge"), st.integers(0, 8)))
+    bnd = st.one_of(st.just(("commit",)), st.just(("commit",)), st.just(("reopen",)), st.tuples(st.just("purge"), st.integers(0, 8)),
+                    st.tuples(st.just("purge_parent"), st.integers(0, 8)))
     extra = [st.tuples(st.just("selfmove"), ctgt)] if self_move else []
     cpmv = st.one_of(
         st.tuples(st.just("mcopy"), cref, cref, dpath, st.booleans(), st.booleans(),
@@ -752,6 +754,40 @@ class CSession:
                 self.classes.add("detach")
             if len(handles) == len(self.targets):
                 held_next = (path, handles)
+        elif kind == "purge_parent":
+            # remove every object of a used schema that still has a used DESCENDANT schema (same session, no reopen):
+            # lookups and queries by the parent schema must keep finding the descendants' objects
+            used = {}
+            for d in m.meta.values():
+                for n, v in d.items():
+                    used[n] = v["parents"]
+            cands = sorted(n for n in used if any(n != o and any(p[0] == n for p in pp) for o, pp in used.items()))
+            if not cands:
+                # set the situation up: a parent-schema object and an object of a descendant schema
+                nodes_ = ["/"] + self._nodes()
+                self.step(["attach", nodes_[op[1] % len(nodes_)], 1, "name", {"title": "parent obj"}, False])  # verif.base 1.1.0
+                self.step(["attach", nodes_[(op[1] // 2) % len(nodes_)], 5 if op[1] % 2 else 4, "name",
+                           {"title": "child obj", "count": 3}, False])  # verif.leaf / verif.mid
+                m = self.model
+                used = {}
+                for d in m.meta.values():
+                    for n, v in d.items():
+                        used[n] = v["parents"]
+                cands = sorted(n for n in used if any(n != o and any(p[0] == n for p in pp) for o, pp in used.items()))
+                if not cands:
+                    return
+            name = cands[op[1] % len(cands)]
+            for path in sorted(p for p, d in self.model.meta.items() if name in d):
+                def fm(model, path=path):
+                    del model.meta[path][name]
+                    if not model.meta[path]:
+                        del model.meta[path]
+
+                self.run_all(lambda ti, t, path=path: self._node(t.mc, path).meta.__delitem__(name), fm, "detach",
+                             dict(path=path, schema=name, purge_parent=True))
+                if self.after_step:
+                    self.after_step(self, ["detach"])
+            self.classes.add("parent_schema_purged_child_kept")
         elif kind == "purge":
             # reopen, then remove every object of one used schema (prefers the alphabetically last one): the
             # freshly rebuilt index has to do the clean-up of schema and package records
